@@ -94,7 +94,7 @@ Feat(t) == (IF Kind(t) = "arr" /\ HasNil(Kids(t)[1]) THEN {"array-of-nullable"} 
            (IF Kind(t) = "arr" /\ Level(Kids(t)[1]) = 3 THEN {"array-of-negative-literal"} ELSE {}) \cup
            (IF Kind(t) = "arr" /\ Kind(Kids(t)[1]) = "union" /\ ~HasNil(Kids(t)[1]) THEN {"array-of-union"} ELSE {}) \cup
            (IF Kind(t) = "lit" THEN LitFeat(Name(t)) ELSE {}) \cup
-           (IF Kind(t) = "rec" /\ Name(t) \in {"['a b']", "['1']", "['a\"b']", "['']", "x,['a b']"}
+           (IF Kind(t) = "rec" /\ Name(t) \in {"['a b']", "['1']", "[dq]", "['']", "x,['a b']"}
             THEN {"record-key-not-a-name"} ELSE {}) \cup
            UNION {Feat(Kids(t)[i]) : i \in 1..Len(Kids(t))}
 SetSeq(S) == CHOOSE f \in [1..Cardinality(S) -> S] : \A i, j \in 1..Cardinality(S) : i # j => f[i] # f[j]
